@@ -434,3 +434,62 @@ func TestValidateStruct(t *testing.T) {
 		kit.Rec.Case(desc, boundary && withValidate, "struct")
 	})
 }
+
+// TestValidateMulti: several validated fields on ONE component (structs bound by prefix and scalars
+// bound by value, in drawn declaration order): start-up fails iff at least one of them is violated.
+func TestValidateMulti(t *testing.T) {
+	kit.Rec.Rule(rule)
+	rapid.Check(t, func(t *rapid.T) {
+		n := rapid.IntRange(2, 4).Draw(t, "nfields")
+		var fields []reflect.StructField
+		cfg := map[string]any{"pad": 1}
+		anyViolated := false
+		var verdicts []string
+		for i := 0; i < n; i++ {
+			name := fmt.Sprintf("F%d", i)
+			switch rapid.IntRange(0, 2).Draw(t, "fkind") {
+			case 0: // struct by prefix
+				v := VS{A: rapid.SampledFrom([]int{0, 1, 5, 9, 10}).Draw(t, "a"), B: rapid.SampledFrom([]string{"x", "xy", "hello"}).Draw(t, "b")}
+				cfg[fmt.Sprintf("vs%d", i)] = v
+				ok := v.A >= 1 && v.A <= 9 && len(v.B) >= 2
+				if libErr := vld.Struct(v); (libErr == nil) != ok {
+					t.Fatalf("HARNESS: struct verdict mismatch for %+v: %v", v, libErr)
+				}
+				anyViolated = anyViolated || !ok
+				verdicts = append(verdicts, fmt.Sprintf("%s:struct%+v ok=%v", name, v, ok))
+				typ := reflect.TypeOf(VS{})
+				if rapid.Bool().Draw(t, "ptr") {
+					typ = reflect.TypeOf(&VS{})
+				}
+				fields = append(fields, reflect.StructField{Name: name, Type: typ, Tag: reflect.StructTag(fmt.Sprintf(`prefix:"c18.vs%d,validate"`, i))})
+			case 1: // int by value
+				limit := rapid.IntRange(1, 9).Draw(t, "limit")
+				x := limit + rapid.IntRange(-1, 1).Draw(t, "delta")
+				cons := rapid.SampledFrom([]string{"gte", "lte", "eq", "ne", "gt", "lt"}).Draw(t, "cons")
+				ok := holds(int64(x), constraint{cons, strconv.Itoa(limit)})
+				anyViolated = anyViolated || !ok
+				verdicts = append(verdicts, fmt.Sprintf("%s:int %d %s=%d ok=%v", name, x, cons, limit, ok))
+				fields = append(fields, reflect.StructField{Name: name, Type: reflect.TypeOf(0), Tag: reflect.StructTag(fmt.Sprintf(`value:"%d,validate=%s=%d"`, x, cons, limit))})
+			default: // string by value from configuration
+				s := rapid.SampledFrom([]string{"ab", "abc", "abcd", "a1"}).Draw(t, "s")
+				cons := rapid.SampledFrom([]constraint{{"min", "3"}, {"max", "3"}, {"len", "3"}, {"alpha", ""}, {"eq", "abc"}}).Draw(t, "scons")
+				ok := holds(s, cons)
+				anyViolated = anyViolated || !ok
+				cfg[fmt.Sprintf("s%d", i)] = s
+				verdicts = append(verdicts, fmt.Sprintf("%s:string %q %s ok=%v", name, s, cons, ok))
+				fields = append(fields, reflect.StructField{Name: name, Type: reflect.TypeOf(""), Tag: reflect.StructTag(fmt.Sprintf(`value:"${c18.s%d},validate=%s"`, i, cons))})
+			}
+		}
+		doc, _ := yaml.Marshal(map[string]any{"c18": cfg})
+		obj := reflect.New(reflect.StructOf(fields))
+		out := kit.RunApp(app.SetComponents(obj.Interface()), app.SetConfigLoader(loader.NewRawLoader(doc)))
+		desc := strings.Join(verdicts, " | ")
+		if out.Panic != nil {
+			t.Fatalf("C18: panic %v\n%s", out.Panic, desc)
+		}
+		if (out.Err != nil) != anyViolated {
+			t.Fatalf("C18: one component with validated fields [%s]: some constraint violated=%v, but start-up %s", desc, anyViolated, map[bool]string{true: "failed: " + out.String(), false: "succeeded"}[out.Err != nil])
+		}
+		kit.Rec.Case(desc, true, "multi-field")
+	})
+}
